@@ -19,7 +19,7 @@ shutil.copytree("/verif/evidence", bak)
 
 
 def one(pid):
-    p = subprocess.run(["/verif/check", pid, "--tier", "quick"], capture_output=True, text=True, cwd="/verif", env=dict(os.environ, CE_REPO=WT))
+    p = subprocess.run(["/verif/check", pid, "--tier", "quick"], capture_output=True, text=True, cwd="/verif", env=dict(os.environ, CE_REPO=WT, CE_RUN_TAG="patch" + os.path.basename(WT)))
     v = [l for l in p.stdout.splitlines() if l.startswith("VIOLATION")]
     cex = [l for l in v if "no-failing-input-found" not in l]
     what = []
